@@ -1,6 +1,8 @@
 """C18 — PCA: input guards dominate the decomposition; the variance divisor derives from the training sample count."""
+from . import layout
+from . import inplace
 from .core import RuleResult
-from .facts import fn_key, fn_loc, walk, strip, peel_refs, Render
+from .facts import fn_file, fn_key, fn_loc, walk, strip, peel_refs, Render
 from .sym import Tracer, Term, Cmp, k, as_term, walk_terms
 
 LEVEL = ("Static analysis of linfa-reduction's PCA: (guard) the empty-dataset test and the embedding-size tests (size outside "
@@ -204,5 +206,58 @@ def rule_project(ctx):
     return res.finish(2)
 
 
+rule_memorder = layout.make_rule("R-C18-memorder", "raw memory-order buffers (as_slice_memory_order, into_raw_vec, as_ptr) of record matrices are used by position only behind an is_standard_layout() test", lambda f: f["d"]["krate"] == "linfa_reduction" and "pca" in fn_file(f), "linfa-reduction pca")
+
+def rule_overwrite(ctx):
+    """Pca::predict_inplace overwrites the caller's buffer: the projection does not depend on what the buffer held"""
+    res = RuleResult("R-C18-overwrite", "Pca::predict_inplace writes the projection into the target without reading or accumulating into its previous content")
+    F = ctx.facts()
+    ck = inplace.Checker(F)
+    fns = [f for f in F.all_fns() if f["d"]["krate"] == "linfa_reduction" and f["d"]["name"] == "predict_inplace" and (f["d"].get("self_adt") or "").endswith("Pca")]
+    if not fns:
+        res.missing_anchor("Pca::predict_inplace")
+    for fn in fns:
+        key = fn_key(fn)
+        ps = fn["params"]
+        if len(ps) < 3 or ps[2].get("k") != "Bind":
+            res.instance(key)
+            res.undecided("%s : target-parameter" % key, "third parameter of predict_inplace is not a plain binding", fn_loc(fn))
+            continue
+        vs = ck.check(fn, ps[2]["local"])
+        res.instance("%s : %d uses of the target classified (%s)" % (key, len(vs), ", ".join(sorted(set(v.kind for v in vs)))))
+        bad = [v for v in vs if v.verdict != "ok"]
+        if not vs:
+            res.undecided("%s : no-write" % key, "no write to the target recognised", fn_loc(fn))
+        elif not bad:
+            res.ok()
+        for v in bad:
+            if v.verdict == "violation":
+                res.violate("%s : %s" % (key, v.kind), v.msg, fn_loc(fn, v.ln))
+            else:
+                res.undecided("%s : %s" % (key, v.kind), v.msg, fn_loc(fn, v.ln))
+    return res.finish(1)
+
+
+def rule_stale(ctx):
+    """no field of a fitted model is computed from a local that is stored in another field and mutated in between (rules/stale.py)"""
+    from . import stale
+    res = RuleResult("R-C18-stale", "fields of the fitted model that are computed from another stored field are computed from its final value (no mutation between the computation and the construction)")
+    F = ctx.facts()
+    fns = [f for f in F.all_fns() if f["d"]["krate"] == "linfa_reduction" and "pca" in fn_file(f)]
+    lits = 0
+    for fn in fns:
+        lits += sum(1 for x in walk(fn["body"]) if x.get("k") == "Struct" and x.get("fields"))
+        for s_ in stale.findings(fn):
+            key = fn_key(fn)
+            res.instance("%s : field %s derived from %s" % (key, s_["field"], s_["source"]))
+            res.violate("%s : stale-field:%s" % (key, s_["field"]), "field `%s` is computed from `%s`, which is stored as field `%s` and is mutated (line %s) after that computation and before the model is built: the two fields describe different states" % (s_["field"], s_["source"], s_["source_field"], s_["mutation_ln"]), fn_loc(fn, s_["mutation_ln"]))
+    res.instance("%d functions of linfa-reduction pca scanned, %d struct literals" % (len(fns), lits))
+    if fns and lits:
+        res.ok()
+    else:
+        res.missing_anchor("model constructions in linfa-reduction pca")
+    return res.finish(1)
+
+
 def rules(tier):
-    return [rule_guard, rule_n, rule_project]
+    return [rule_guard, rule_n, rule_project, rule_memorder, rule_overwrite, rule_stale]
